@@ -8,7 +8,7 @@
    The sub-structure search itself (RDKit matching, path enumeration) is not modelled: the tie compares its result
    with code_prob on generated chains; atom-order independence is oracle-only. *)
 From Coq Require Import List ZArith QArith Bool.
-From GBS Require Import Model.Prob Proofs.ProbP.
+From GBS Require Import Model.Prob Proofs.ProbP Src.SrcProb Proofs.ProbSrcP.
 Import ListNotations.
 Open Scope Q_scope.
 
@@ -37,6 +37,13 @@ Print Assumptions C19_equal_refuted_first_interval.
 Theorem C19_equal_refuted_start_group : ~ code_block F_ex 40 30 2 == gen_block F_ex 30 2.
 Proof. exact equal_refuted_start_group. Qed.
 Print Assumptions C19_equal_refuted_start_group.
+
+(* tie T: the (value, previous) pair kept by mol_prob.RememberAdd -- its statements are checked against the source, Src/SrcProb.v writes them
+   out -- after a block of n units is the interval of the closed form above; the search that decides which masses are added is not modelled *)
+Theorem C19_interval_bookkeeping_is_source : forall m0 u n, (1 <= n)%nat ->
+  fst (add_units (m0, 0) u n) == fst (code_interval m0 u n) /\ snd (add_units (m0, 0) u n) == snd (code_interval m0 u n).
+Proof. exact remember_add_is_the_interval. Qed.
+Print Assumptions C19_interval_bookkeeping_is_source.
 
 Example C19_example : code_block F_ex 0 30 3 == gen_block F_ex 30 3 /\ gen_block F_ex 30 3 == 0 /\ gen_block F_ex 30 4 == 1 # 2.
 Proof. vm_compute. repeat split. Qed.
